@@ -8,7 +8,7 @@ from coba.pipes import ListSink
 from coba.environments import Environments
 from coba.experiments import Experiment
 from coba.evaluators import SequentialCB
-from coba.learners import BanditEpsilonLearner
+from coba.learners import BanditEpsilonLearner, BanditUCBLearner
 
 EXPLANATION = ("Experiments whose triple list (length <=3, component indices over 2 environments x 2 learner objects x 2 evaluators chosen as z3 integers, so every "
                "sharing pattern and order is reached), learner kind, fault position and execution mode (in-process, or emulated workers with a solver-chosen "
@@ -67,13 +67,15 @@ class FEnv:
 
 class FLearner:
     """stateful counting learner; publishes learning_info; may raise at the j-th predict/learn"""
-    def __init__(self, tag, fault=None): self.tag, self.fault = tag, fault; self.n = 0; self.learned = 0
+    def __init__(self, tag, fault=None): self.tag, self.fault = tag, fault; self.n = 0; self.learned = 0; self.fin = 0
     @property
     def params(self): return {'family': 'flearner', 'tag': self.tag}
     def predict(self, context, actions):
         if self.fault == ('predict', self.n): raise Boom(f"predict {self.n} of {self.tag}")
         self.n += 1
-        return actions[(self.n + 2*self.learned) % len(actions)], 1/len(actions)
+        return actions[(self.n + 2*self.learned + self.fin) % len(actions)], 1/len(actions)
+    def finish(self):
+        self.fin += 1                      # a finished learner answers differently: finishing must happen to the private copy only
     def learn(self, context, action, reward, probability):
         CobaContext.learning_info['learned_before'] = self.learned
         if self.fault == ('learn', self.learned): raise Boom(f"learn {self.learned} of {self.tag}")
@@ -98,6 +100,7 @@ def build(triples_idx, lk, fault, chunked):
     envs = [FEnv('aa', fault[1] if fault and fault[0]=='env' else None), FEnv('bbb')]
     if chunked: envs = list(Environments(envs).chunk()._envs)
     if lk == 'counting': lrns = [FLearner('L0', fault[1] if fault and fault[0]=='lrn' else None), FLearner('L1')]
+    elif lk == 'ucb': lrns = [FLearner('L0', fault[1] if fault and fault[0]=='lrn' else None), BanditUCBLearner(seed=2)]
     else: lrns = [FLearner('L0', fault[1] if fault and fault[0]=='lrn' else None), BanditEpsilonLearner(.1)]
     vals = [FEval(fault[1] if fault and fault[0]=='val' else None), SequentialCB()]
     return [(envs[e], lrns[l], vals[v]) for e,l,v in triples_idx], lrns
@@ -146,13 +149,13 @@ def rows_by_triple(res):
 
 def _classify(v): return v['what'].split(':')[0][:110]
 
-@obligation('C03','isolation', bounds="triple lists of length 1..3 over 2 environments x 2 learner objects x 2 evaluators (indices as z3 ints: every sharing pattern and order); learner kinds {counting double, BanditEpsilon}; 8 fault positions; modes {in-process, emulated workers with maxtasksperchunk in {0,1,2} on chunked or plain environments}",
+@obligation('C03','isolation', bounds="triple lists of length 1..3 over 2 environments x 2 learner objects x 2 evaluators (indices as z3 ints: every sharing pattern and order); learner kinds {counting double with a finish() that changes its answers, BanditEpsilon, BanditUCB}; 8 fault positions; modes {in-process, emulated workers with maxtasksperchunk in {0,1,2} on chunked or plain environments}",
             functions=FUNCS, classify=_classify, budget={'quick':80,'thorough':900},
             params=lambda tier: [dict(n=n, fault=f, mode=m) for n in ((1,2,3) if tier == 'quick' else (1,2,3,4)) for f in range(len(FAULTS)) for m in ('inproc','emu_plain','emu_chunked')])
 def isolation(sym, n, fault, mode):
     fault_i = fault
     fault = FAULTS[fault]
-    lk = sym.choice('lk', ['counting','bandit'])
+    lk = sym.choice('lk', ['counting','bandit','ucb'])
     mt = sym.choice('mt', [0,1,2]) if mode != 'inproc' else 0
     idx = []
     for i in range(n):
@@ -183,7 +186,7 @@ def isolation(sym, n, fault, mode):
     if mode == 'inproc':
         for li,lrn in enumerate(lrns):
             if sum(1 for t in idx if t[1] == li) > 1 and hasattr(lrn,'learned'):
-                sym.check(lrn.n == 0 and lrn.learned == 0, f"the user's learner object L{li}, listed in several triples, was trained in place")
+                sym.check(lrn.n == 0 and lrn.learned == 0 and getattr(lrn,'fin',0) == 0, f"the user's learner object L{li}, listed in several triples, was trained or finished in place")
 
 # ---------------------------------------------------------------------------------------------------
 class NoBatchLearner:
